@@ -93,10 +93,14 @@ fn main() {
     let code = dispatch!(id.as_str(), mk, replay,
         "C01" => c01,
         "C02" => c02,
+        "C03" => c03,
         "C04" => c04,
+        "C07" => c07,
+        "C08" => c08,
         "C12" => c12,
         "C13" => c13,
         "C14" => c14,
+        "C17" => c17,
     );
     driver::cleanup_scratch();
     std::process::exit(code);
